@@ -55,6 +55,7 @@ type resHandle struct {
 	bld       gowarc.WarcRecordBuilder
 	hasCloser bool // a record from Unmarshal or Build (ToRevisitRecord's has no closer)
 	built     *bool // a record has been built from this builder (it shares the builder's buffer)
+	closedOnce bool // Close has been called on this handle before
 }
 
 func recordBytes(kind string, n int) []byte {
@@ -159,14 +160,12 @@ func kRes(args []string) (string, string) {
 		case "w", "rf": // w:<h>:<n>
 			h := get(f[1])
 			n, _ := strconv.Atoi(f[2])
-			if h == nil || h.bld == nil || (*h.dead && h.built != nil && *h.built) {
-				// writing into a builder whose RECORD exists and has been closed stays outside the scenarios: a record's Close
-				// takes effect once only (its closer is dropped), so which later Close releases such bytes depends on the kind of
-				// handle, which the ownership model does not distinguish
+			if h == nil || h.bld == nil {
 				break
 			}
-			// also into a builder that has been closed (and never built): diskbuffer.Close only deals with the file part, a buffer
-			// that has not spilled goes on; what it spills afterwards is removed by the NEXT Close (model: RBuf.shut)
+			// also into a builder that has been closed, or whose record has been closed: diskbuffer.Close only deals with the file
+			// part, a buffer that has not spilled goes on; what it spills afterwards is removed by the next Close THAT TAKES EFFECT:
+			// any Close on the builder, the first Close on a record (model: RBuf.shut, RHandle.once)
 			data := []byte(strings.Repeat("x", n))
 			if f[0] == "w" {
 				_, _ = h.bld.Write(data)
@@ -295,8 +294,11 @@ func kRes(args []string) (string, string) {
 			if h.dead != nil {
 				*h.dead = true
 			}
-			// Close on a builder or a record releases the temp file created on its behalf, whoever else still refers to it
-			if h.dir != "" && leak == "" {
+			// Close on a builder, or the FIRST Close on a record, releases the temp file created on its behalf, whoever else
+			// still refers to it (a record's Close takes effect once: record.go drops the closer)
+			effective := h.rec == nil && h.bld != nil || !h.closedOnce
+			h.closedOnce = true
+			if h.dir != "" && leak == "" && effective {
 				if n := countFiles(h.dir); n != 0 {
 					leak = fmt.Sprintf("VIOL c15-leak after_Close_on_handle_%s_%d_temp_file(s)_remain_ops=%s", f[1], n, sanitize(args[0]))
 				}
